@@ -54,7 +54,29 @@ def wrap(v, name='arg', alphabet=None):
         m = v.m
         return Opaque(m.name, 'func', {'rowwise': RowWise(m.name, m.k, m.tuple_kind, m.trailing, recording=True), 'real': v,
                                        'types': ['function']})
-    from .models import AttrObject
+    from .models import AttrObject, HookModuleSpec, hook_ghost
+    if isinstance(v, HookModuleSpec):
+        raise TypeError("HookModuleSpec must be built before the call")
+    if isinstance(v, torch.nn.Module) and not isinstance(v, RecordingModel) and hasattr(v, '_NON_LINEAR_OPS'):
+        # a real module seen through its ghost hook state (C07)
+        g = hook_ghost(v)
+        attrs = {'ghost': g, 'ghost0': dict(g), '_NON_LINEAR_OPS': {},
+                 'isinstance_of_supported_ops': isinstance(v, tuple(v._NON_LINEAR_OPS.keys()))}
+        mod = Opaque(name, 'nn_module', attrs)
+        if hasattr(v, 'handles'):
+            dicts = {'nf': v._forward_hooks, 'np': v._forward_pre_hooks, 'nb': v._backward_hooks}
+            hs = []
+            for h in v.handles:
+                size = [k for k, d in dicts.items() if h.id in d]
+                fn = None
+                if size:
+                    fn = dicts[size[0]][h.id]
+                    fn = getattr(fn, 'hook', fn)
+                nm = getattr(fn, '__name__', '')
+                dls = {'_f_hook': 'dls_f', '_fp_hook': 'dls_p', '_b_hook': 'dls_b'}.get(nm) if getattr(fn, '__module__', '') == 'tangermeme.deep_lift_shap' else None
+                hs.append(Opaque('handle', 'hook_handle', {'module': mod, 'size': size[0] if size else None, 'dls': dls, 'live': bool(size)}))
+            attrs['handles'] = hs
+        return mod
     if isinstance(v, AttrObject):
         return Opaque(name, v._cls, {k: wrap(x, k, alphabet) for k, x in v.attrs().items()})
     if isinstance(v, torch.Tensor):
@@ -125,6 +147,9 @@ def check_concrete(contract, cfg, pyfn, args, kwargs, wrap_hook=None):
             viol.append({'label': 'raises_iff:not-rejected-when-returning', 'detail': 'returned normally on an input the contract requires to be rejected'})
         else:
             rw = contract.wrap_result(outcome[1]) if hasattr(contract, 'wrap_result') else wrap(outcome[1], 'result')
+            if getattr(contract, 'needs_after_state', False):
+                # objects mutated by the call (ghost state of real modules) as they are after it
+                a._after = NS(**{k: wrap(v, k, alphabet) for k, v in env.items()})
             spec = contract.result(a, cfg)
             clauses = []
             if spec is not NotImplemented:
@@ -138,6 +163,8 @@ def check_concrete(contract, cfg, pyfn, args, kwargs, wrap_hook=None):
             viol.append({'label': 'accepts:no-raise-on-accepted-domain', 'detail': 'raised %s on an accepted input' % outcome[1]})
     # frame
     for p, t in tensors_in(dict(env)):
+        if p not in before:
+            continue
         nm = p.lstrip('.').split('[')[0].split('.')[0]
         if nm in contract.modifies:
             continue
